@@ -212,6 +212,7 @@ pub fn draw_layout(rng: &mut Rng, big: bool) -> Layout {
         seed: rng.next_u64(),
         loose_ptr: rng.chance(25),
         kind_coincidence: rng.chance(30),
+        strength: if rng.chance(35) { 1 + rng.below(6) as u8 } else { 0 },
     }
 }
 
@@ -404,6 +405,9 @@ pub fn shrink_foreign(f: &ForeignSpec) -> Vec<ForeignSpec> {
     }
     if l.kind_coincidence {
         out.push(ForeignSpec { layout: Layout { kind_coincidence: false, ..l.clone() }, ..f.clone() });
+    }
+    if l.strength != 0 {
+        out.push(ForeignSpec { layout: Layout { strength: 0, ..l.clone() }, ..f.clone() });
     }
     if f.placement != 0 {
         out.push(ForeignSpec { placement: 0, ..f.clone() });
